@@ -91,24 +91,38 @@ fragments attached only at non-self-complementary overhangs -/
 def OneLap (f : Fragment) (suf : List Oriented) : Prop :=
   (∀ o ∈ suf, o.junction ≠ f.fwd) ∧ (∀ o ∈ suf, o.flipped = true → revComp o.junction ≠ o.junction)
 
+instance (f : Fragment) (suf : List Oriented) : Decidable (OneLap f suf) := by unfold OneLap; infer_instance
+
 /-! ### designed assemblies (the property's quantifier), decided on the pool -/
 
 /-- both orientations of every pool fragment -/
 def orientations (pool : List Fragment) : List Oriented := pool.flatMap fun f => [⟨f, false⟩, ⟨f, true⟩]
 
-/-- something can be ligated to the reverse end of `o` (otherwise `o` is a dead end: a decoy) -/
-def live (pool : List Fragment) (o : Oriented) : Bool :=
-  (orientations pool).any fun o' => o'.get.fwd == o.get.rev
+/-- one round of dead-end pruning: keep the oriented fragments that have, within the set, something to be ligated
+to their reverse end AND something their forward end can be ligated to — another fragment species, or (a fragment
+that closes on itself) the very same oriented fragment; never the other strand of the same species -/
+def pruneStep (S : List Oriented) : List Oriented :=
+  S.filter fun o =>
+    (S.any fun o' => (o'.frag != o.frag || o' == o) && o'.get.fwd == o.get.rev) &&
+    (S.any fun o' => (o'.frag != o.frag || o' == o) && o'.get.rev == o.get.fwd)
 
-/-- A designed assembly: upper-case ACGT; no overhang (on either strand) is its own reverse
-complement; and among the oriented fragments that are not dead ends the forward overhang determines the
-reverse overhang — the alternatives of a slot share both junction overhangs, different slots have
-different ones, a fragment fits in one place and one orientation only, decoys dead-end. -/
+def pruneN : Nat → List Oriented → List Oriented
+  | 0, S => S
+  | n + 1, S => pruneN n (pruneStep S)
+
+/-- the oriented fragments that survive pruning of dead ends to the fixpoint (every fragment of every ring does;
+decoys — single, chained, sharing their dead end or their lead-in overhang, palindromic or not — and by-products of
+the digest with stray overhangs do not) -/
+def core (pool : List Fragment) : List Oriented := pruneN (2 * pool.length) (orientations pool)
+
+/-- A designed assembly: upper-case ACGT, and among the oriented fragments that are not (transitively) dead ends
+no junction overhang is its own reverse complement and the forward overhang determines the reverse overhang — the
+alternatives of a slot share both junction overhangs, different slots have different ones, a fragment fits in one
+place and one orientation only; decoys of any shape dead-end. -/
 def designed (pool : List Fragment) : Bool :=
   dnaPool pool &&
-  ((orientations pool).all fun o => revComp o.junction != o.junction) &&
-  ((orientations pool).all fun a => (orientations pool).all fun b =>
-    !(live pool a && live pool b && a.get.fwd == b.get.fwd) || a.get.rev == b.get.rev)
+  ((core pool).all fun o => revComp o.junction != o.junction) &&
+  ((core pool).all fun a => (core pool).all fun b => !(a.get.fwd == b.get.fwd) || a.get.rev == b.get.rev)
 
 /-! ### enumeration (used by the judge; brute force for small pools, graph walk otherwise) -/
 
@@ -150,5 +164,21 @@ def ringsWalk (simpleOnly : Bool) (pool : List Fragment) : List (List Oriented) 
   vals.flatMap fun n => [false, true].flatMap fun b =>
     let o : Oriented := ⟨n, b⟩
     walks simpleOnly vals o.get (vals.length + 1) [o] o.get
+
+/-- the rings of class `OneLap` by graph walk (Props/C09 `ligate_exact`: exactly what is sent): start at a fragment
+as supplied, stop at the first return to its forward overhang, flip only onto non-self-complementary overhangs -/
+def walksOneLap (vals : List Fragment) (start : Fragment) : Nat → List Oriented → Fragment → List (List Oriented)
+  | 0, _, _ => []
+  | fuel + 1, path, last =>
+    if last.rev == start.fwd then [path.reverse] else
+      vals.flatMap fun n =>
+        if path.any (fun o => o.frag == n) then [] else
+          [false, true].flatMap fun b =>
+            let o : Oriented := ⟨n, b⟩
+            if last.rev == o.get.fwd && (!b || revComp last.rev != last.rev) then walksOneLap vals start fuel (o :: path) o.get else []
+
+def ringsOneLap (pool : List Fragment) : List (List Oriented) :=
+  let vals := pool.eraseDups
+  vals.flatMap fun n => walksOneLap vals n (vals.length + 1) [⟨n, false⟩] n
 
 end PolyVerif.Spec.Rings
